@@ -91,7 +91,12 @@ class Run:
         os.environ["EQL_VERIF"] = "1"
         self.cases += len(cases)
         t = time.time()
-        traces = replay_mod.replay(cases, workers=self.workers)
+        try:
+            traces = replay_mod.replay(cases, workers=self.workers)
+        except Exception as e:      # multiprocessing.TimeoutError or a crashed worker
+            if type(e).__name__ == "TimeoutError":
+                raise tlc.MachineryError("replay did not finish within the time limit (an evaluation that does not terminate?)")
+            raise
         self.extra["replay_s"] = round(self.extra.get("replay_s", 0) + time.time() - t, 1)
         for t in traces:          # which kinds of events were actually exercised (non-vacuity of the exploration)
             for e in t.get("evs", []):
